@@ -1,14 +1,13 @@
 """C11: a copied model is equal to and fully independent of its source."""
 from props.fmodel import *
-from props import c06
+from props import c06, fblock
 ID = "C11"
 LEVEL = "model_checking"
-HARNESS = c06.HARNESS
-MODULE = c06.MODULE
-ENTRIES = c06.ENTRIES
-ENGINE_ONLY_AIDS = ("C11-shared", "C11-shared-assign", "C11-shared-copies", "C11-independent")
+MODULES = {"fmedit": dict(harness=c06.HARNESS, entries=c06.ENTRIES), "fblock": dict(harness=[fblock.GEN], entries=fblock.ENTRIES)}
+prepare = fblock.prepare
+ENGINE_ONLY_AIDS = ("C11-shared", "C11-shared-assign", "C11-shared-copies", "C11-independent", "C11-clone-shared")
 BOUNDS = {
-    "quick": {"models": "OB/FO3/SK/SSE/FO4/FO76 API-built models (NiTriShape and BSTriShape families), skinned/unskinned, with collision/extra data/controller", "copies": "copy constructor and copy assignment", "edits_on_copy": "delete vertex, set vertices + rename, delete shape, delete block + sort", "destruction_order": "source first / copies first"},
+    "quick": {"block_level": "Clone() of all registered block types on symbolic input (B=1, L=256, 5 s per type): equal bytes, disjoint heap, survives the source", "models": "OB/FO3/SK/SSE/FO4/FO76 API-built models (NiTriShape and BSTriShape families), skinned/unskinned, with collision/extra data/controller", "copies": "copy constructor and copy assignment", "edits_on_copy": "delete vertex, set vertices + rename, delete shape, delete block + sort, SetTriangles/UpdateBounds through the shape object", "destruction_order": "source first / copies first"},
     "thorough": {"models": "all feature combinations incl. symbolic vertex payload", "copies": "as quick", "edits_on_copy": "as quick", "destruction_order": "both"},
 }
 ASSUMPTIONS = [
@@ -20,7 +19,7 @@ LEVEL_TEXT = ("Bounded symbolic model checking of NifFile's copy constructor / a
               "reachable from the source unchanged when edited, and both destruction orders must be free of memory errors.")
 LEVEL_NOTE = "Small API-built models per version; edit battery fixed; engine heap model trusted."
 
-MODELS_Q = [(OB, SKIN | COLL), (FO3, SKIN | EXTRA), (SK, SKIN | CTRL | SHAPE2), (SSE, SKIN | EXTRA), (FO4, SKIN | EXTRA | LOOSE), (FO76, SHAPE2)]
+MODELS_Q = [(SSE, LEGACYSHAPE | EXTRA), (FO4, LEGACYSHAPE), (OB, SKIN | COLL), (FO3, SKIN | EXTRA), (SK, SKIN | CTRL | SHAPE2), (SSE, SKIN | EXTRA), (FO4, SKIN | EXTRA | LOOSE), (FO76, SHAPE2)]
 
 
 def jobs(tier, seed):
@@ -28,11 +27,13 @@ def jobs(tier, seed):
     bud = 120 if tier == "quick" else 600
     models = MODELS_Q if tier == "quick" else MODELS_Q + [(v, f) for v in range(6) for f in (0, SKIN | SYMPOS, EXTRA | CTRL | LOOSE | CHILDNODE | SHAPE2)]
     for ver, feat in models:
-        for edit in range(4):
+        for edit in range(5):
             for order in (0, 1):
                 if tier == "quick" and (edit + order) % 2 == 1 and ver in (FO3, FO76):
                     continue
-                J.append(dict(entry="h_c11", args=[ver, feat, edit, order], budget=bud))
+                J.append(dict(entry="h_c11", args=[ver, feat, edit, order], budget=bud, mod="fmedit"))
+    # block level: Clone() of every registered block type on symbolic input (NifFile's copy clones every block)
+    J += [dict(j, mod="fblock") for j in fblock.jobs_for("h_clone", tier, seed, budget_quick=5, budget_thorough=90)]
     return J
 
 
@@ -41,4 +42,6 @@ def owns_violation(v):
 
 
 def signature(job, v):
+    if job.get("mod") == "fblock":
+        return "%s:%s:%s" % (job["entry"], fblock.type_of(job), v["aid"])
     return "%s:%s" % (job["entry"], v["aid"])
